@@ -55,6 +55,14 @@ CHECKS = {
         "note": ("Trusted: the relation checks (numpy), tolerances stated in DESIGN.md; MMSE power tolerance 1e-5 because its Lagrange multiplier comes from scipy's newton with default tolerance. "
                  "Two genuine defects are recorded as known findings (leakage increase under repeated zero eigenvalues; ZeroDivisionError of the noise-free closed form)."),
     },
+    "C14": {
+        "engine": "simkit", "level": "exploration", "design_ref": "DESIGN.md section 4 (C14)",
+        "technique": "deterministic simulation of the generator's internal clock: seeded request/skip histories with clock jumps to 1e10 samples, integer-time reference model evaluated with the generator's phases, checked after every request",
+        "text": ("Seeded exploration of request/skip histories on one Jakes generator. The generator IS a clock (float time stepping); skip() is the simulator's clock jump, which makes positions "
+                 "up to ~1e10 samples reachable in microseconds, biased towards tiny requests far out where float stepping is most fragile. After every request: exact returned shape, "
+                 "every sample within a derived tolerance (0.01 sample of timing error) of the sum-of-sinusoids model at INTEGER sample index k, phases unchanged, |h| <= sqrt(L), zero Doppler static."),
+        "note": "Trusted: the 4-line model; the tolerance argument in DESIGN.md section 4 (C14). Phases are snapshotted from the private _phi_l/_psi_l, which the property itself names.",
+    },
 }
 
 _PENDING = ["C03", "C06", "C08", "C10", "C13", "C14", "C15"]
